@@ -147,17 +147,171 @@ def run_edit(ctx, report, kind, timeout_ms, table):
     report.add(ob)
 
 
+# ------------------------------------------------------------------ the edits on drawn descriptions
+def remap_funcs(spec, fmap):
+    """a copy of the description in which every function-index reference i is replaced by fmap(i)"""
+    import copy
+    sp = copy.copy(spec)
+
+    def op(o):
+        if isinstance(o, Enum) and o.names and 'function_index' in o.names:
+            i = o.names.index('function_index')
+            return o.with_field(i, u32(fmap(conc(o.f[i]))))
+        return o
+    sp.funcs = [dict(f, ops=[op(o) for o in f['ops']]) for f in spec.funcs]
+    sp.func_tags = list(spec.func_tags)
+    sp.imports = list(spec.imports)
+    sp.exports = [dict(e, index=u32(fmap(conc(e['index'])))) if e['kind'] == 'Func' else dict(e) for e in spec.exports]
+    sp.start = None if spec.start is None else u32(fmap(conc(spec.start)))
+    els = []
+    for e in spec.elements:
+        e2 = dict(e)
+        if e['items'][0] == 'funcs':
+            e2['items'] = ('funcs', [u32(fmap(conc(x))) for x in e['items'][1]])
+        else:
+            e2['items'] = ('exprs', e['items'][1], [op(x) for x in e['items'][2]])
+        els.append(e2)
+    sp.elements = els
+    sp.globals = [dict(g, init=op(g['init'])) for g in spec.globals]
+    return sp
+
+
+NEW_BODY = lambda: [OP('I32Const', value=sym('newbody', 'i32')), OP('Drop'), OP('Unreachable'), OP('End')]
+
+
+def expected_after(spec, kind, target):
+    """the description the edit is documented to produce"""
+    nimp = sum(1 for i in spec.imports if i['kind'] == 'func')
+    nloc = len(spec.funcs)
+    if kind == 'imp':
+        # the import disappears, the function keeps its identity and becomes local (its position among the local
+        # functions is the emitter's business: the comparison recovers it from the tag)
+        new_index = nimp - 1 + nloc
+        fmap = lambda i: new_index if i == target else (i - 1 if i > target else i)
+        sp = remap_funcs(spec, fmap)
+        k = [j for j, i in enumerate(spec.imports) if i['kind'] == 'func'][target]
+        ty = spec.imports[k]['type']
+        sp.imports = [i for j, i in enumerate(spec.imports) if j != k]
+        sp.funcs.append(dict(type=ty if isinstance(ty, int) else conc(ty), ops=NEW_BODY()))
+        sp.func_tags.append('newbody')
+        return sp
+    # exported: a new function of the same type is added; the FIRST export of the target names it; nothing else moves
+    sp = remap_funcs(spec, lambda i: i)
+    new_index = nimp + nloc
+    sp.funcs.append(dict(type=spec.funcs[target - nimp]['type'], ops=NEW_BODY()))
+    sp.func_tags.append('newbody')
+    done = False
+    for e in sp.exports:
+        if not done and e['kind'] == 'Func' and conc(e['index']) == target:
+            e['index'] = u32(new_index)
+            done = True
+    return sp
+
+
+def unreachable_closure(I):
+    def clo(I, st, args, cont, depth):
+        body = args[0].f[0]
+        steps = [(I.method('i32_const', 'InstrSeqBuilder'), [sym('newbody', 'i32')]), (I.method('drop', 'InstrSeqBuilder', nparams=1), []), (I.method('unreachable', 'InstrSeqBuilder', nparams=1), [])]
+
+        def run(i, st):
+            if i >= len(steps):
+                return cont(st, unit())
+            fn, extra = steps[i]
+            I.run(fn, [body] + extra, st, lambda s2, r: cont(s2, PANIC) if r is PANIC else run(i + 1, s2), depth + 1)
+        run(0, st)
+    return I.pyclosure(clo)
+
+
+def run_generated_edit(ctx, report, name, spec, kind, table, timeout_ms):
+    nimp = sum(1 for i in spec.imports if i['kind'] == 'func')
+    if kind == 'imp':
+        if nimp == 0:
+            return
+        target = spec.gen_seed % nimp
+    else:
+        cands = [conc(e['index']) for e in spec.exports if e['kind'] == 'Func' and conc(e['index']) >= nimp]
+        if not cands:
+            return
+        target = cands[0]
+    ob = common.Obligation('O18:%s@%s' % (kind, name), '%s of function %d of description %s: the output is the description with exactly that one thing rewired (%s); every other reference, segment, export and body is unchanged' % (
+        'replace_imported_func' if kind == 'imp' else 'replace_exported_func', target, name, 'import removed, identity kept by callers / segments / exports' if kind == 'imp' else 'new function added, first export of the target retargeted'))
+    try:
+        I, P = pc.new_pipeline(ctx)
+        oks, errs, panics = pc.parse_ok_paths(I, P, spec)
+        vios = []
+        n = 0
+        want = expected_after(spec, kind, target)
+        IN = modcmp.in_module(want)
+        for s, mod in oks:
+            mref = I.halloc(s, mod)
+            fn = I.method('replace_imported_func' if kind == 'imp' else 'replace_exported_func', impl_ty='Module')
+            outs = []
+            I.run(fn, [mref, bv(target, 'Id<Function>'), unreachable_closure(I)], s, lambda s2, v: outs.append((s2, v)))
+            for s2, v in outs:
+                if v is PANIC:
+                    vios.append({'key': 'edit.panic', 'what': '[%s] the edit panics: %r' % (name, pc.pipeline_panic_events(s2)[:2])})
+                    continue
+                if v.variant != 'Ok':
+                    vios.append({'key': 'edit.rejects', 'what': '[%s] the edit returned Err on a valid request' % name})
+                    continue
+                rid = conc(v.f[0])
+                if kind == 'imp' and rid != target:
+                    vios.append({'key': 'edit.id', 'what': '[%s] replace_imported_func returned id %d, the replaced function had id %d' % (name, rid, target)})
+                if kind == 'exp' and rid == target:
+                    vios.append({'key': 'edit.id', 'what': '[%s] replace_exported_func returned the id of the original function' % name})
+                for s3, rec, _m in P.run_emit(s2, None, mref=mref):
+                    if rec is PANIC:
+                        vios.append({'key': 'emit.panic', 'what': '[%s] emit after the edit panics: %r' % (name, pc.pipeline_panic_events(s3)[:2])})
+                        continue
+                    n += 1
+                    OUT = modcmp.out_module(rec)
+                    C, pi = modcmp.compare_structure(want, IN, OUT, want.func_tags)
+                    wn = sum(1 for i in want.imports if i['kind'] == 'func')
+                    types = [(tuple(p), tuple(r)) for p, r in want.types]
+                    for k, f in enumerate(want.funcs):
+                        j = pi['func'].get(wn + k)
+                        if j is None or not (0 <= j - wn < len(OUT['code'])):
+                            continue
+                        B = bodycmp.BodyCmp(table, pi, C)
+                        B.compare(want.func_tags[k], f['ops'], OUT['code'][j - wn]['instrs'], types)
+                    for key, what in C.bad:
+                        vios.append({'key': key, 'what': '[%s after %s of %d] %s' % (name, kind, target, what)})
+                    for key, what, cond in C.todo:
+                        sol = z3.Solver()
+                        sol.add(*s3.pc)
+                        sol.add(cond)
+                        report.queries += 1
+                        if sol.check() == z3.sat:
+                            vios.append({'key': key, 'what': '[%s after %s of %d] %s not preserved' % (name, kind, target, what)})
+        ob.detail = '%d paths' % n
+        c14.finish(ob, report, vios, n)
+    except Inconclusive as ex:
+        ob.status, ob.detail = 'inconclusive', str(ex)[:400]
+    except modcmp.Mismatch as ex:
+        ob.status, ob.detail = 'inconclusive', 'output record not understood: ' + str(ex)[:300]
+    report.add(ob)
+
+
 def run(tier, seed, only=None):
     report = common.Report('C18', tier, seed)
     ctx = common.Ctx()
     timeout_ms = 60000 if tier == 'quick' else 600000
     table = witness.load_table()
 
-    def go():
-        for kind in ('imp', 'exp', 'imp-wrong', 'exp-wrong'):
+    from obligations import gen
+    gl = gen.generated(tier, seed, n_quick=10)
+
+    def job(ctx, report, what, name, sp, kind):
+        if what == 'fixed':
             run_edit(ctx, report, kind, timeout_ms, table)
-    engine.run_in_big_stack(go)
-    report.bounds = {'module': 'two imported functions (one called, listed in a table segment and exported), three local functions (caller, exported x, internal caller y of x)', 'replacement body': 'built by a harness closure through the real InstrSeqBuilder::{i32_const, drop, local_get}; constants symbolic'}
+        else:
+            run_generated_edit(ctx, report, name, sp, kind, table, timeout_ms)
+    items = [('fixed', kind, None, kind) for kind in ('imp', 'exp', 'imp-wrong', 'exp-wrong')]
+    for n, sp in gl:
+        items += [('gen', n, sp, 'imp'), ('gen', n, sp, 'exp')]
+    items = [i for i in items if not only or i[1] in only]
+    pc.run_parallel(ctx, report, job, items)
+    report.bounds = {'generated': gen.bounds_text(tier, len(gl)) + ' x {replace_imported_func of a drawn imported function, replace_exported_func of the first exported local function} where the description has one; the expected result is computed by an index-remapping transform of the description (expected_after)', 'module': 'two imported functions (one called, listed in a table segment and exported), three local functions (caller, exported x, internal caller y of x)', 'replacement body': 'built by a harness closure through the real InstrSeqBuilder::{i32_const, drop, local_get}; constants symbolic'}
     report.assumptions = ['the documented result of each edit is written down as a second description (obligations/c18.py module())', 'counterexamples are reported with the solver path only (no native replay route for API edits yet)']
     report.samples = [o.as_json() for o in report.obligations[:4]]
     return report, ctx
